@@ -4,11 +4,12 @@ def _geo(idsz, cap, init, strlen=None):
         d.append("ARDUINOJSON_STRING_LENGTH_SIZE=%d" % strlen)
     return d
 
-def _bfs(defs, depth):
+def _bfs(defs, depth, extra=None):
     return [{"src": "checks/hx.cpp", "mode": "bfs", "defs": list(defs), "deps": ["checks/hx.hpp", "checks/hx_fault.hpp", "checks/hx_limits.hpp"],
              "fallback_defs": ["VERIF_NO_INSPECTOR"],
              "args": ["--level=%d" % l, "--depth=%d" % depth, "--alphabet=reduced", "--cap=20000", "--no-alias",
-                      "--tag=geo_" + "_".join(d.split("=")[-1] for d in defs)]} for l in range(1, depth + 1)]
+                      "--tag=geo_" + "_".join(d.split("=")[-1] for d in defs) + "".join("_" + "".join(ch for ch in e if ch.isalnum()) for e in (extra or []))] + (extra or [])}
+            for l in range(1, depth + 1)]
 
 _PX = {"src": "checks/px.cpp", "mode": "px", "flavour": "fastclang", "deps": ["checks/px_unit.cpp"], "hang_s": 600}
 
@@ -24,6 +25,8 @@ PROPS["C19"] = {
                     "pool-table request sizes are checked for plausibility, not compared (growth policy is not part of the contract)"],
     "quick": [dict(_PX, args=["--caps=list"])] + _bfs(_geo(1, 3, 3), 2) + _bfs(_geo(2, 7, 2, 1), 2) + _bfs(_geo(4, 128, 4, 4), 2) +
              _bfs(_geo(1, 128, 4), 2) +  # more inline pools than the id range can address
+             _bfs(_geo(1, 4, 1), 1, ["--init=bulk"]) + _bfs(_geo(1, 3, 2), 1, ["--init=bulk-freed"]) +  # heap pool table, shrunk by the parser, then every operation
+             [{"src": "checks/hx.cpp", "mode": "limits", "defs": _geo(2, 7, 2, 1), "arduino": True, "fallback_defs": ["VERIF_NO_INSPECTOR"], "deps": ["checks/hx.hpp", "checks/hx_fault.hpp", "checks/hx_limits.hpp"], "shards": 8}] +  # reference counts wider than string lengths
              [{"src": "checks/hx.cpp", "mode": "limits", "defs": _geo(1, 4, 1, 1), "arduino": True, "fallback_defs": ["VERIF_NO_INSPECTOR"], "deps": ["checks/hx.hpp", "checks/hx_fault.hpp", "checks/hx_limits.hpp"], "shards": 4},
               {"src": "checks/hx.cpp", "mode": "limits", "defs": _geo(1, 10, 3, 2), "arduino": True, "fallback_defs": ["VERIF_NO_INSPECTOR"], "deps": ["checks/hx.hpp", "checks/hx_fault.hpp", "checks/hx_limits.hpp"], "shards": 4}],
     "thorough": [dict(_PX, args=["--caps=all", "--id2"])] +
